@@ -21,13 +21,12 @@ func readRules(input io.Reader) ([]rule, error) {
 	currentRuleIndex := len(defaultExclusions) - 1
 
 	for scanner.Scan() {
-		pattern := scanner.Text()
-		// Ignore blank lines
+		// Trim spaces
+		pattern := strings.TrimSpace(scanner.Text())
+		// Ignore blank lines, including those made of white space only
 		if len(pattern) == 0 {
 			continue
 		}
-		// Trim spaces
-		pattern = strings.TrimSpace(pattern)
 		// Ignore comments
 		if pattern[0] == '#' {
 			continue
@@ -36,6 +35,10 @@ func readRules(input io.Reader) ([]rule, error) {
 		rule := rule{}
 		// Exclusions
 		if pattern[0] == '!' {
+			// A lone "!" negates nothing
+			if len(pattern) == 1 {
+				continue
+			}
 			rule.negated = true
 			pattern = pattern[1:]
 			// Mark all previous rules as having negations after it
